@@ -302,6 +302,9 @@ def stepLine (s : DSt) (w : List String) : DSt × String :=
             let r := "eol=" ++ ",".intercalate (List.replicate (v.length + extra) "1")
             (s, s!"R {r} log=- | C {fmtCModel s.m} | I {fmtI s.m "0" 0 []} | S {r} log=- ; {fmtCSpec s.sp}")
         | _, _ => (s, "bad-op")
+      | ["e", "fbreentry"] =>
+        -- a fallback whose end-of-life call emits an unknown id: exactly one end-of-life call, no invocation after it
+        (s, s!"R eol=1 after=0 log=- | C {fmtCModel s.m} | I {fmtI s.m "0" 0 []} | S eol=1 after=0 log=- ; {fmtCSpec s.sp}")
       | ["e", "stale", idw] =>
         -- message events are emitted in an event structure whose id field is already set: the first byte decides
         match parseId idw with
